@@ -207,6 +207,8 @@ def selfcheck_cases(ctx, entries, loaded, n):
                     k = floats(p.text)
                     pts = [(rng.uniform(0.0, 1.2), rng.uniform(0.0, 1.2)) for _ in range(n)]
                     pts += [(0.0, 1.0), (k[0], k[1]), (1.0, 0.0), (-0.1, 0.2), (0.2, -0.1), (k[0], k[1] + 1e-9)]
+                    # on the axes beyond the envelope (one damage exactly zero): pure fatigue / pure creep points
+                    pts += [(1.0 + 1e-9, 0.0), (1.5, 0.0), (10.0, 0.0), (0.0, 1.0 + 1e-9), (0.0, 7.0), (rng.uniform(1.0, 3.0), 0.0)]
                     for (a, b) in pts:
                         add(("env", f, v, pn, a, b), "c20d env %s %s %s %s %s" % (F, V, P, fb(a), fb(b)),
                             sval(obj.inside_envelope, pn, a, b), "envelope")
@@ -646,7 +648,10 @@ def pred_metallic(f, v, obj, node, fine):
             k = floats(p.text)
             d = 1e-9
             checks = [((0.0, 1.0), True), ((0.0, 1.0 + d), False), ((k[0], k[1]), True), ((k[0], k[1] + d), False),
-                      ((1.0, 0.0), True), ((1.0, d), False)]
+                      ((1.0, 0.0), True), ((1.0, d), False),
+                      # the envelope closes at (1,0) and (0,1): beyond them on the axes is outside
+                      ((1.0 + d, 0.0), False), ((1.5, 0.0), False), ((10.0, 0.0), False), ((0.0, 1.5), False),
+                      ((0.5 * k[0], 0.0), True), ((0.0, 0.5), True)]
             if not (0.0 < k[0] < 1.0 and 0.0 < k[1] < 1.0):
                 bad.append(("envelope_points", {"pname": pn, "df": k[0], "dc": k[1]}, "knee %r of %s is not inside the unit square" % (k, pn)))
             for (a, b), want in checks:
